@@ -153,6 +153,7 @@ fn first(a, b) { a }
 fn mk(a, b) { #(a, b) }
 fn try_(r: Result(a, e), k: fn(a) -> Result(b, e)) -> Result(b, e) { case r { Ok(v) -> k(v) Error(e) -> Error(e) } }
 fn map(l: List(a), f: fn(a) -> b) -> List(b) { case l { [] -> [] [h, ..t] -> [f(h), ..map(t, f)] } }
+fn apply(v: a, k: fn(a) -> b) -> b { k(v) }
 ";
 
 const PARAMS: &str = "i: Int, f: Float, s: String, b: Bool, l: List(Int), t: #(Int, String), r: Result(Int, String), g: fn(Int) -> Int, c: Color, p: Pair, bx: Box(Int), ls: List(String), tr: Triple, gg: G(Int, String, Float), u3: U3, m4: M4(Bool)";
@@ -519,6 +520,53 @@ fn record_cases() -> Vec<(String, Vec<(String, RTy)>)> {
     out
 }
 
+
+/// A binder whose type comes from its context (callback parameter of a generic function, use
+/// binder, immediately applied lambda, clause / let binder) x what is done with it in its scope
+/// (used as is, tuple index, field access, arithmetic on a projection).
+fn context_cases() -> Vec<(String, String, Vec<(String, RTy)>)> {
+    // (value expression, its type, [(projection text with `e` for the binder, projected type)])
+    let values: Vec<(&str, RTy, Vec<(&str, RTy)>)> = vec![
+        ("t", it(), vec![("e", it()), ("e.0", Int), ("e.1", Str), ("e.0 + 1", Int)]),
+        ("p", pair(), vec![("e", pair()), ("e.first", Int), ("e.second", Str), ("e.first + 1", Int)]),
+        ("bx", boxed(Int), vec![("e", boxed(Int)), ("e.inner", Int), ("e.inner + 1", Int)]),
+        ("tr", Named("Triple".into(), vec![]), vec![("e.tc", Float), ("e.tb", Str)]),
+    ];
+    let mut out = vec![];
+    let mut n = 0;
+    for (v, vt, projs) in &values {
+        for (proj, pt) in projs {
+            // contexts: (kind, statement template with {b} result binder, {e} inner binder, {v} value, {x} projection; result type)
+            let contexts: Vec<(&str, String, RTy)> = vec![
+                ("callback of a generic function", "let {b} = apply({v}, fn({e}) { {x} })".into(), pt.clone()),
+                ("callback of a generic function, list", "let {b} = map([{v}], fn({e}) { {x} })".into(), List(Box::new(pt.clone()))),
+                ("callback after a pipe", "let {b} = {v} |> apply(fn({e}) { {x} })".into(), pt.clone()),
+                ("use binder", "let {b} = { use {e} <- apply({v}) {x} }".into(), pt.clone()),
+                ("immediately applied lambda", "let {b} = fn({e}) { {x} }({v})".into(), pt.clone()),
+                ("clause binder", "let {b} = case {v} { {e} -> {x} }".into(), pt.clone()),
+                ("let binder", "let {b} = { let {e} = {v} {x} }".into(), pt.clone()),
+                ("lambda bound first, applied later", "let {b} = { let k = fn({e}) { {x} } k({v}) }".into(), pt.clone()),
+            ];
+            for (kind, tpl, rt) in contexts {
+                // Gleam itself rejects a projection from a lambda parameter whose type is not yet
+                // known where the lambda is written ("type must be known"): not a well-typed program
+                if (kind == "immediately applied lambda" || kind == "lambda bound first, applied later") && *proj != "e" {
+                    continue;
+                }
+                n += 1;
+                let b = format!("cx{n}");
+                let e = format!("ce{n}");
+                let x = proj.replace("e.", &format!("{e}.")).replace("e ", &format!("{e} "));
+                let x = if *proj == "e" { e.clone() } else { x };
+                let stmt = tpl.replace("{b}", &b).replace("{e}", &e).replace("{v}", v).replace("{x}", &x);
+                let projected = if *proj == "e" { "binder itself" } else if proj.contains('+') { "arithmetic on a projection" } else if proj.chars().last().map_or(false, |c| c.is_ascii_digit()) { "tuple index" } else { "field access" };
+                out.push((format!("{kind}|{projected}"), stmt, vec![(b, rt), (e, vt.clone())]));
+            }
+        }
+    }
+    out
+}
+
 fn hover_type(an: &ide::Analysis, file: ide::FileId, off: usize) -> std::result::Result<Option<String>, String> {
     match catch(|| an.hover(FilePos::new(file, (off as u32).into()))) {
         Ok(Ok(Some(h))) => {
@@ -614,7 +662,7 @@ fn expr_key(e: &str) -> String {
     if let Some(p) = e.find("|> ") {
         let rest = &e[p + 3..];
         let name: String = rest.chars().take_while(|c| c.is_alphanumeric() || *c == '_').collect();
-        if name == "map" || name == "try_" {
+        if name == "map" || name == "try_" || name == "apply" {
             return "feature:pipe-into-generic-call-with-arguments".into();
         }
     }
@@ -1251,6 +1299,34 @@ pub fn run(tier: Tier) -> i32 {
     }
     rl.bound = format!("{} statements: for four records (all fields labelled; generic; no labels; one unlabelled then three labelled with a type parameter) with fields of distinct types, every positional prefix followed by every ordered selection of the remaining labelled fields (patterns in let and in case, with `..` when incomplete; complete constructor calls), plus field access", rcs.len());
     rep.layer(rl);
+    // binders typed by their context x projections
+    let ccs = context_cases();
+    let mut cl = Layer { name: "context-typed-binders".into(), exhaustive: true, ..Default::default() };
+    let cres: Vec<Vec<Violation>> = ccs
+        .par_iter()
+        .map(|(kind, stmt, binders)| {
+            let expect: Vec<(usize, &str, RTy)> = binders.iter().map(|(b, t)| (0usize, b.as_str(), t.clone())).collect();
+            check_bindings(&[stmt.clone()], &expect)
+                .into_iter()
+                .map(|(si, msg)| Violation { class: if si == usize::MAX { "machinery-syntax".into() } else { "binder-type".into() }, key: { let k = expr_key(stmt); if k.starts_with("feature:") { k } else { format!("context-typed binder|{kind}") } }, witness: json!({"context_stmt": stmt}), detail: msg })
+                .collect()
+        })
+        .collect();
+    for (i, v) in cres.into_iter().enumerate() {
+        cl.states += 1;
+        cl.executions += 1;
+        cl.transitions += ccs[i].2.len() as u64;
+        for x in v {
+            if x.class == "machinery-syntax" {
+                rep.machinery(format!("{}: {}", ccs[i].1, x.detail));
+            } else {
+                rep.violation(x);
+            }
+        }
+    }
+    cl.bound = format!("{} statements: 4 values (tuple, record, generic record, three-field record) x their projections (binder itself, tuple index / field access, arithmetic on it) x 8 contexts that give the binder its type (callback of a generic function, of map over a list, after a pipe, use binder, clause binder, let binder; an immediately applied lambda and a lambda bound first and applied later only with the binder itself, since Gleam rejects a projection there); both the binder's and the result's shown type are compared", ccs.len());
+    rep.layer(cl);
+
     graphs_layer(&mut rep, tier);
     binary_graphs_layer(&mut rep);
     rep.distinct_nontrivial = exprs.len() as u64;
@@ -1266,6 +1342,12 @@ pub fn replay(w: &Value) -> Vec<String> {
     if let (Some(stmt), Some(t)) = (w["stmt"].as_str(), w["type"].as_str()) {
         let Some(ty) = parse_ty(t) else { return vec!["bad type".into()] };
         return check_bindings(&[stmt.to_string()], &[(0, "v0", ty)]).into_iter().map(|f| f.1).collect();
+    }
+    if let Some(stmt) = w["context_stmt"].as_str() {
+        if let Some((_, _, binders)) = context_cases().into_iter().find(|(_, s, _)| s == stmt) {
+            let expect: Vec<(usize, &str, RTy)> = binders.iter().map(|(b, t)| (0usize, b.as_str(), t.clone())).collect();
+            return check_bindings(&[stmt.to_string()], &expect).into_iter().map(|f| f.1).collect();
+        }
     }
     if let Some(stmt) = w["record_stmt"].as_str() {
         if let Some((_, binders)) = record_cases().into_iter().find(|(s, _)| s == stmt) {
